@@ -975,6 +975,7 @@ def run_shard(spec):
     from rt import geomgen
 
     geomgen.calm_thread_pools()
+    hang = geomgen.hang_dump(PROPERTY, spec)
     tr = trace.ExitTracer(TARGETS)
     tr.install()
     # oracle self-consistency on this shard's seed (cheap)
@@ -983,6 +984,7 @@ def run_shard(spec):
     for i in range(spec["programs"]):
         run_program(spec["seed"], spec["shard"], i, tr, res, bump)
     tr.uninstall()
+    geomgen.hang_dump_done(hang)
     bump("oracle_lps", go.STATS["lp"])
     bump("oracle_gjk_nonconverged", go.STATS["gjk_nonconverged"])
     if len(res["violations"]) > 60:
